@@ -418,19 +418,44 @@ def first_mismatch(line, impl_out, model_out):
         if isinstance(note, tuple):
             return {'step': note[1], 'kind': note[0], 'observed': tr['impl_items'][note[1]],
                     'expected': 'a fresh 64-hex-digit token / v4 uuid that never appeared before', 'failing': True, 'tr': tr}
+    first_model = None
     for i in range(tr['upto']):
         it = tr['impl_items'][i]
         r = it.split('|', 1)[0]
         want = orc.step(tr['mops'][i], tr['clocks'][i])
         if r != want:
+            # the implementation's own result contradicts the property reference: a failing input
             return {'step': i, 'kind': 'oracle', 'observed': r, 'expected': want, 'failing': True, 'tr': tr}
-        if i >= len(mitems) or mitems[i] != it:
-            return {'step': i, 'kind': 'model', 'observed': it, 'expected': mitems[i] if i < len(mitems) else '(none)',
-                    'failing': False, 'tr': tr}
+        if first_model is None and (i >= len(mitems) or mitems[i] != it):
+            first_model = {'step': i, 'kind': 'model', 'observed': it,
+                           'expected': mitems[i] if i < len(mitems) else '(none)', 'failing': False, 'tr': tr}
+    return first_model
+
+
+def probe(line):
+    """a stored-state disagreement: look for a result that shows it (neighbourhood of the history: the same history
+    followed by lookups of every token and uid, and one more session per user)"""
+    toks = line.split(' ')
+    ops = toks[4:]
+    nt = sum(1 for o in ops if o.startswith(('cs:', 'cl:')))
+    nu = sum(1 for o in ops if o.startswith('cu:'))
+    extra = ['gu:t%d' % i for i in range(nt)] + ['rt:t%d' % i for i in range(nt)] + ['ex:u%d' % i for i in range(nu)]
+    extra += ['cl:u%d:3600' % i for i in range(nu)] + ['gu:t%d' % i for i in range(nt + nu)]
+    cand = ' '.join(toks[:4] + [o for o in ops if o != 'ep'] + extra) if 'ep' not in ops else None
+    if cand is None:
+        return None
+    io = hv.run_lines(hv.IMPL_BIN, [cand], shards=1)[0]
+    tr = translate(cand, io)
+    if not tr['ok']:
+        return None
+    mo = hv.run_lines(hv.MODEL_BIN, [tr['model_line']], shards=1)[0]
+    mm = first_mismatch(cand, io, mo)
+    if mm is not None and mm['kind'] == 'oracle':
+        return cand, mm
     return None
 
 
-def shrink(ctx, line, step):
+def shrink(ctx, line, step, kind=None):
     """greedy: cut the history after the failing step, then drop operations while a mismatch remains"""
     toks = line.split(' ')
     head, ops = toks[:4], toks[4:step + 5]
@@ -444,8 +469,16 @@ def shrink(ctx, line, step):
         if not tr['ok']:
             return True
         mo = hv.run_lines(hv.MODEL_BIN, [tr['model_line']], shards=1)[0]
-        return first_mismatch(l, io, mo) is not None
+        m = first_mismatch(l, io, mo)
+        return m is not None and (kind is None or m['kind'] == kind)
 
+    # exhaustive lines: keep only the episode the failing step belongs to (episodes start from the session-free state)
+    if 'ep' in best:
+        k = len(best) - 1 - best[::-1].index('ep')
+        lead = [o for o in best[:best.index('ep')] if o.startswith('cu:')]
+        cand = lead + best[k + 1:]
+        if bad(cand):
+            best = cand
     i = 0
     while i < len(best) and budget > 0:
         cand = best[:i] + best[i + 1:]
@@ -481,6 +514,7 @@ def run(ctx):
     model = run_parallel(hv.MODEL_BIN, mlines)
     ctx.evaluations += len(lines)
     nsteps = 0
+    nreported = 0
     for idx, (line, io, mo) in enumerate(zip(lines, impl, model)):
         tag = cases[order[idx]][1]
         ctx.count('histories:' + tag)
@@ -507,11 +541,26 @@ def run(ctx):
             continue
         step = mm['step']
         small = line
-        if not ctx.replay and mm['kind'] != 'harness':
+        nreported += 1
+        if nreported > 60:
+            ctx.disagreements += 1          # counted, not minimised: the first ones already carry replays
+            continue
+        minimise = nreported <= 8
+        if minimise and not ctx.replay and mm['kind'] != 'harness':
             try:
-                small = shrink(ctx, line, step)
+                small = shrink(ctx, line, step, mm['kind'])
             except Exception as e:           # noqa: BLE001 — shrinking is best effort
                 ctx.notes.append('shrink failed: %r' % (e,))
+        if minimise and not ctx.replay and mm['kind'] == 'model':
+            try:
+                pr = probe(small)
+                if pr is not None:
+                    small2, mm2 = pr
+                    small = shrink(ctx, small2, mm2['step'], 'oracle')
+                    mm, step, tr = mm2, mm2['step'], mm2['tr']
+                    ctx.count('state-disagreement-shown-by-probe')
+            except Exception as e:           # noqa: BLE001
+                ctx.notes.append('probe failed: %r' % (e,))
         what = {
             'oracle': 'result differs from the reference: a token/password authenticated (or was rejected) against the '
                       'property',
